@@ -314,7 +314,7 @@ impl Property for C13 {
         ctx.stats.nt_disjoint += local.len() as u64;
         }
 
-        let cases = ctx.tier.pick(150_000, 3_000_000);
+        let cases = ctx.tier.pick(600_000, 3_000_000);
         ctx.run_streams("c13-history", cases, 200, |ctx, bytes| {
             let mut c = Choices::new(bytes);
             let n0 = c.below(12);
